@@ -239,7 +239,20 @@ func (readSched) Execute(scAny any, keepLog bool) *core.Outcome {
 		sig := fmt.Sprintf("%s/auto=%v/k=%d", v.Reader.Kind, auto, min(v.K, 1))
 		pre := len(out.Violations)
 		if v.Reader.Kind == "plain" && auto {
-			// compared with the other plain+auto variants of the same framing only
+			// A plain reader cannot be rewound after the 193-byte probe: the library documents that
+			// it re-synchronises on the next packet boundary, losing the packets it probed. What is
+			// left must be an unaltered suffix of the canonical packet sequence (at most the first
+			// two packets missing), and the same for every read plan.
+			okSuffix := false
+			for lost := 0; lost <= 2 && lost <= len(canon.pk); lost++ {
+				if ok, _ := seqEq(canon.pk[lost:], got.pk); ok {
+					okSuffix = true
+				}
+			}
+			if !okSuffix {
+				out.Violate("C08", "packets-depend-on-read-schedule", sig+"/not-a-suffix", "plain reader, auto-detected size, k=%d, plan %s: the NextPacket sequence (%d packets) is not the canonical sequence (%d packets) minus at most its first two packets", v.K, planClass(v.Reader), len(got.pk), len(canon.pk))
+				out.Narrow(pre, &ReadSchedScenario{Model: sc.Model, Variants: []ReadVariant{v}})
+			}
 			if ref, ok := plainAuto[v.K]; ok {
 				if okp, msg := seqEq(ref.pk, got.pk); !okp {
 					out.Violate("C08", "packets-depend-on-read-schedule", sig, "plain reader, auto-detected size, k=%d: NextPacket sequence differs between read plans %s and %s: %s", v.K, planClass(plainAutoV[v.K].Reader), planClass(v.Reader), msg)
